@@ -126,7 +126,7 @@ func peekStores(cfg *config.Config) (storeH, stateH int64, appHash []byte, resp 
 	if err != nil {
 		return 0, 0, nil, "?", err
 	}
-	st, lerr := sm.NewStore(sdb, sm.StoreOptions{}).Load()
+	st, lerr := sm.NewStore(sdb, sm.StoreOptions{DiscardABCIResponses: true}).Load()
 	resp = lastRespHeight(sdb)
 	if cerr := sdb.Close(); cerr != nil && lerr == nil {
 		lerr = cerr
@@ -163,7 +163,8 @@ func childMain() {
 	cfg.RPC.GRPCListenAddress = ""
 	cfg.Consensus.TimeoutCommit = 10 * time.Millisecond
 	cfg.Consensus.SkipTimeoutCommit = true
-	cfg.Consensus.CreateEmptyBlocks = true
+	cfg.Consensus.CreateEmptyBlocks = envInt("TMH_C05_NOEMPTY", 0) == 0
+	cfg.Storage.DiscardABCIResponses = envInt("TMH_C05_DISCARD", 0) == 1
 	cfg.Consensus.CreateEmptyBlocksInterval = 0
 	mpver := os.Getenv(envMpVer)
 	if mpver == "" {
@@ -208,6 +209,7 @@ func childMain() {
 		childDie(dir, 5, "setup-error", err)
 	}
 	app.valKey = pubKey
+	app.retain = int64(envInt("TMH_C05_RETAIN", 0))
 	app.exitAtBegin = int64(envInt("TMH_C05_IH", 1)) + int64(envInt(envBlocks, 3))
 
 	// what a restarting node finds
@@ -266,6 +268,11 @@ func childMain() {
 			_ = mp.CheckTx(mkTx(id+off), nil, mempool.TxInfo{})
 			time.Sleep(5 * time.Millisecond)
 		}
+		// create_empty_blocks = false: blocks are only proposed when transactions are waiting
+		for k := 1; envInt("TMH_C05_NOEMPTY", 0) == 1; k++ {
+			_ = mp.CheckTx(mkTx(100000+off*100+k*10+1), nil, mempool.TxInfo{})
+			time.Sleep(15 * time.Millisecond)
+		}
 	}()
 
 	select {} // the application exits the process at BeginBlock N+1
@@ -300,7 +307,7 @@ func tailStr(b []byte, n int) string {
 }
 
 // runChildOnce runs one incarnation of the node on dir. failIdx < 0: no FAIL_TEST_INDEX.
-func runChildOnce(dir string, run, blocks, failIdx int, mpver string, txs []int, timeoutSec int, ih int) (nodeRun, string) {
+func runChildOnce(dir string, run, blocks, failIdx int, mpver string, txs []int, timeoutSec int, ih int, extraEnv []string) (nodeRun, string) {
 	var r nodeRun
 	var env []string
 	for _, e := range os.Environ() {
@@ -322,6 +329,7 @@ func runChildOnce(dir string, run, blocks, failIdx int, mpver string, txs []int,
 		envTimeout+"="+strconv.Itoa(timeoutSec),
 		envRun+"="+strconv.Itoa(run),
 	)
+	env = append(env, extraEnv...)
 	if failIdx >= 0 {
 		env = append(env, "FAIL_TEST_INDEX="+strconv.Itoa(failIdx))
 	}
@@ -402,7 +410,7 @@ func readFinal(dir string, res *nodeResult) (err error) {
 		return err
 	}
 	defer sdb.Close()
-	st, err := sm.NewStore(sdb, sm.StoreOptions{}).Load()
+	st, err := sm.NewStore(sdb, sm.StoreOptions{DiscardABCIResponses: true}).Load()
 	if err != nil {
 		return err
 	}
@@ -421,7 +429,7 @@ func readFinal(dir string, res *nodeResult) (err error) {
 // returning): run i (i < len(fails)) has FAIL_TEST_INDEX=fails[i] (fails[i] < 0: no env, i.e. a
 // clean run); the last run has no FAIL_TEST_INDEX. A run that exits with code 0 (clean stop at
 // BeginBlock N+1) ends the sequence early.
-func runNodeCase(blocks int, fails []int, mpver string, txs []int, timeoutSec int, ih int) (res nodeResult) {
+func runNodeCase(blocks int, fails []int, mpver string, txs []int, timeoutSec int, ih int, extraEnv []string) (res nodeResult) {
 	res.Chain = map[int64][]int{}
 	if timeoutSec <= 0 {
 		timeoutSec = 60
@@ -443,7 +451,7 @@ func runNodeCase(blocks int, fails []int, mpver string, txs []int, timeoutSec in
 		if i < len(fails) {
 			f = fails[i]
 		}
-		r, problem := runChildOnce(dir, i, blocks, f, mpver, txs, timeoutSec, ih)
+		r, problem := runChildOnce(dir, i, blocks, f, mpver, txs, timeoutSec, ih, extraEnv)
 		res.Runs = append(res.Runs, r)
 		if problem != "" {
 			res.Err = problem
